@@ -27,8 +27,16 @@ impl<'r> Samples<'r> {
 
     /// Returns the keys.
     pub fn keys(&self) -> Keys<'r> {
+        const MISSING: &str = ".";
+
         let (src, _) = self.0.split_once(DELIMITER).unwrap_or_default();
-        Keys::new(src)
+
+        // A missing FORMAT column has no keys.
+        if src == MISSING {
+            Keys::new("")
+        } else {
+            Keys::new(src)
+        }
     }
 
     /// Returns the sample with the given sample name.
@@ -161,6 +169,17 @@ mod tests {
     fn test_is_empty() {
         assert!(Samples::new("").is_empty());
         assert!(!Samples::new("GT:GQ\t0|0:13").is_empty());
+    }
+
+    #[test]
+    fn test_missing_format_with_samples() {
+        let header = Header::default();
+        let samples = Samples::new(".\t.\t.");
+
+        assert!(!samples.is_empty());
+        assert!(samples.keys().iter().next().is_none());
+        assert_eq!(samples.iter().count(), 2);
+        assert!(samples.iter().all(|sample| sample.iter(&header).next().is_none()));
     }
 
     #[test]
